@@ -356,10 +356,12 @@ macro_rules! shadow_repr {
                         a == b
                     }
                     6 => {
-                        // only inside the no-carry precondition: halve both operands first
+                        // only inside the no-carry precondition: clear the top limb of both operands (inner limbs keep
+                        // their all-ones patterns, so carries run through them)
                         let (mut p, mut q) = (x, y);
-                        p.div2();
-                        q.div2();
+                        let nl = p.as_ref().len();
+                        p.as_mut()[nl - 1] = 0;
+                        q.as_mut()[nl - 1] = 0;
                         let (mut a, mut b) = (p, p);
                         a.add_nocarry(&q);
                         <$R as PrimeFieldRepr>::add_nocarry(&mut b, &q);
